@@ -2,6 +2,7 @@
 #include "tracing.h"
 #include "resource_tracking.h"
 #include "colors.h"
+#include "builtins_registry.h"
 
 static void emit_context_error(
     const char *title,
@@ -910,6 +911,20 @@ static Type check_expression_impl(ASTNode *expr, Environment *env) {
                         message,
                         "Convert operands to the same type before comparing."
                     );
+                } else if (left == TYPE_STRING || left == TYPE_BOOL) {
+                    /* < <= > >= are defined on (int, int) and (float, float) only (spec 4.5) */
+                    char message[256];
+                    snprintf(message, sizeof(message),
+                            "Ordering comparison requires numeric operands (got %s and %s).",
+                            type_to_string(left), type_to_string(right));
+                    emit_context_error(
+                        "TYPE MISMATCH",
+                        expr->line,
+                        expr->column,
+                        1,
+                        message,
+                        "Use == / != for strings and bools, or compare numeric values."
+                    );
                 }
                 return TYPE_BOOL;
             }
@@ -1691,6 +1706,41 @@ static Type check_expression_impl(ASTNode *expr, Environment *env) {
                     "Add or remove arguments to match the function signature."
                 );
                 return TYPE_UNKNOWN;
+            }
+
+            /* Built-ins are registered without a parameter list: check their scalar argument
+             * types against the builtin registry ((str_length 3), (int_to_string "x"), ...) */
+            if (!func->params) {
+                const BuiltinEntry *be = builtin_find(expr->as.call.name);
+                if (be && be->arity == expr->as.call.arg_count && be->arity <= 4) {
+                    for (int i = 0; i < expr->as.call.arg_count; i++) {
+                        Type want = be->param_types[i];
+                        if (want != TYPE_INT && want != TYPE_FLOAT && want != TYPE_BOOL &&
+                            want != TYPE_STRING && want != TYPE_ARRAY) continue;
+                        Type got = check_expression(expr->as.call.args[i], env);
+                        bool got_concrete = (got == TYPE_INT || got == TYPE_FLOAT || got == TYPE_BOOL ||
+                                             got == TYPE_STRING || got == TYPE_ARRAY);
+                        /* numeric built-ins (abs, min, max, ...) are int/float polymorphic */
+                        bool both_numeric = (want == TYPE_INT || want == TYPE_FLOAT) &&
+                                            (got == TYPE_INT || got == TYPE_FLOAT);
+                        if (got_concrete && got != want && !both_numeric) {
+                            char message[256];
+                            snprintf(message, sizeof(message),
+                                    "Argument %d of `%s` expects %s, got %s.",
+                                    i + 1, safe_format_string(expr->as.call.name),
+                                    type_to_string(want), type_to_string(got));
+                            emit_context_error(
+                                "TYPE MISMATCH",
+                                expr->as.call.args[i]->line,
+                                expr->as.call.args[i]->column,
+                                1,
+                                message,
+                                "Pass an argument of the built-in's parameter type."
+                            );
+                            return TYPE_UNKNOWN;
+                        }
+                    }
+                }
             }
 
             /* Check argument types (skip for built-ins with NULL params like range) */
